@@ -34,9 +34,10 @@ type term struct {
 // cand is a candidate invariant: Σ coef_i * lvar_i + Σ tcoef_j * term_j + c <= 0, where
 // useInit marks lvars whose *initial* value (a loop-invariant quantity) is meant.
 type cand struct {
-	name string
+	stage int // 1: single-variable bounds; 2: relations between two loop variables
+	name  string
 	// build instantiates the inequality in disjunct d; cur(i) yields the lin for lvar i
-	build func(d *disjunct, cur func(i int) *lin.Lin, init func(i int) *lin.Lin) (lin.Ineq, bool)
+	build func(d *disjunct, cur func(i int) *lin.Lin, init func(i int) *lin.Lin) ([]lin.Ineq, bool)
 }
 
 type loopMemo struct {
@@ -387,8 +388,8 @@ func (it *interp) analyzeLoop(f frameID, fn *ssa.Function, L *loop, ins []edgeIn
 				cur := func(i int) *lin.Lin { return mvars[i].head }
 				ini := func(i int) *lin.Lin { return mvars[i].init(nd) }
 				for _, c := range active {
-					if q, ok := c.build(nd, cur, ini); ok {
-						nd.addFact(q)
+					if qs, ok := c.build(nd, cur, ini); ok {
+						nd.addFacts(qs...)
 					}
 				}
 				hs.ds = append(hs.ds, nd)
@@ -404,8 +405,8 @@ func (it *interp) analyzeLoop(f frameID, fn *ssa.Function, L *loop, ins []edgeIn
 			ok := true
 			for _, d := range entry.ds {
 				ini := func(i int) *lin.Lin { return mvars[i].init(d) }
-				q, built := c.build(d, ini, ini)
-				if !built || !it.entails(d, q) {
+				qs, built := c.build(d, ini, ini)
+				if !built || !it.entailsAll(d, qs) {
 					ok = false
 					break
 				}
@@ -422,101 +423,118 @@ func (it *interp) analyzeLoop(f frameID, fn *ssa.Function, L *loop, ins []edgeIn
 		saveRec := it.record
 		it.record = false
 		changedMem := false
-		for inner := 0; inner < 30; inner++ {
-			hs := mkHead(active)
-			it.retStack = append(it.retStack, nil)
-			ro := it.runRegion(f, fn, L, head, hs)
-			rets := it.retStack[len(it.retStack)-1]
-			it.retStack = it.retStack[:len(it.retStack)-1]
-			_ = rets
-			// memory variance
-			for _, be := range ro.backs {
-				for _, b := range be.st.ds {
-					// a merged disjunct descends from several head disjuncts: a cell is invariant
-					// only if it still has the value it had in every one of them
-					var heads []*disjunct
-					for _, t := range strings.Split(b.tags[memoKey], "+") {
-						if hh := byTag[t]; hh != nil {
-							heads = append(heads, hh)
+		// staged Houdini: first the single-variable bounds alone, then the pair relations on
+		// top of the surviving bounds (which stay inductive whatever is added)
+		allActive := active
+		var settled []cand
+		for stage := 1; stage <= 2 && !changedMem; stage++ {
+			active = append([]cand(nil), settled...)
+			for _, c := range allActive {
+				if c.stage == stage {
+					active = append(active, c)
+				}
+			}
+			for inner := 0; inner < 30; inner++ {
+				hs := mkHead(active)
+				it.retStack = append(it.retStack, nil)
+				ro := it.runRegion(f, fn, L, head, hs)
+				rets := it.retStack[len(it.retStack)-1]
+				it.retStack = it.retStack[:len(it.retStack)-1]
+				_ = rets
+				// memory variance
+				for _, be := range ro.backs {
+					for _, b := range be.st.ds {
+						// a merged disjunct descends from several head disjuncts: a cell is invariant
+						// only if it still has the value it had in every one of them
+						var heads []*disjunct
+						for _, t := range strings.Split(b.tags[memoKey], "+") {
+							if hh := byTag[t]; hh != nil {
+								heads = append(heads, hh)
+							}
 						}
-					}
-					if len(heads) == 0 {
-						heads = entry.ds
-					}
-					for _, h := range heads {
-						for k, bc := range b.mem {
-							if strings.HasSuffix(k, "|zero") || variantMem[k] {
-								continue
-							}
-							if _, ok := h.mem[k]; ok {
-								continue
-							}
-							if _, z := h.mem[zeroMarker(bc.a)]; z && bc.typ != nil {
-								// cell of a zero-initialised object first touched inside the loop:
-								// make its entry value explicit so that variance is detected
-								for _, e := range entry.ds {
-									if _, has := e.mem[k]; !has {
-										if zr := it.zeroRep(bc.typ); zr.kind != kNone {
-											e.mem[k] = &memCell{a: bc.a, typ: bc.typ, val: zr}
-											changedMem = true
+						if len(heads) == 0 {
+							heads = entry.ds
+						}
+						for _, h := range heads {
+							for k, bc := range b.mem {
+								if strings.HasSuffix(k, "|zero") || variantMem[k] {
+									continue
+								}
+								if _, ok := h.mem[k]; ok {
+									continue
+								}
+								if _, z := h.mem[zeroMarker(bc.a)]; z && bc.typ != nil {
+									// cell of a zero-initialised object first touched inside the loop:
+									// make its entry value explicit so that variance is detected
+									for _, e := range entry.ds {
+										if _, has := e.mem[k]; !has {
+											if zr := it.zeroRep(bc.typ); zr.kind != kNone {
+												e.mem[k] = &memCell{a: bc.a, typ: bc.typ, val: zr}
+												changedMem = true
+											}
 										}
 									}
 								}
 							}
-						}
-						for k, c := range h.mem {
-							if strings.HasSuffix(k, "|zero") || variantMem[k] {
-								continue
-							}
-							bc, ok := b.mem[k]
-							if !ok || !(bc == c || repEqual(bc.val, c.val)) {
-								variantMem[k] = true
-								changedMem = true
+							for k, c := range h.mem {
+								if strings.HasSuffix(k, "|zero") || variantMem[k] {
+									continue
+								}
+								bc, ok := b.mem[k]
+								if !ok || !(bc == c || repEqual(bc.val, c.val)) {
+									variantMem[k] = true
+									changedMem = true
+								}
 							}
 						}
 					}
 				}
-			}
-			if changedMem {
-				break
-			}
-			// preservation
-			var keep []cand
-			removed := false
-			for _, c := range active {
-				ok := true
-				for _, be := range ro.backs {
-					for _, b := range be.st.ds {
-						from := be.from
-						nxt := func(i int) *lin.Lin { return mvars[i].next(b, from) }
-						ini := func(i int) *lin.Lin { return mvars[i].init(b) }
-						q, built := c.build(b, nxt, ini)
-						if !built || !it.entails(b, q) {
-							if os.Getenv("RTPCHECK_LOOPDBG") == "2" && built {
-								fmt.Printf("    fail %s from b%d tag=%s: %s\n", c.name, from.Index, b.tags[memoKey], it.describe(b, q))
+				if changedMem {
+					break
+				}
+				// preservation
+				var keep []cand
+				removed := false
+				for _, c := range active {
+					ok := true
+					if c.stage < stage {
+						keep = append(keep, c)
+						continue
+					}
+					for _, be := range ro.backs {
+						for _, b := range be.st.ds {
+							from := be.from
+							nxt := func(i int) *lin.Lin { return mvars[i].next(b, from) }
+							ini := func(i int) *lin.Lin { return mvars[i].init(b) }
+							qs, built := c.build(b, nxt, ini)
+							if !built || !it.entailsAll(b, qs) {
+								if os.Getenv("RTPCHECK_LOOPDBG") == "2" && built {
+									fmt.Printf("    fail %s from b%d tag=%s: %s\n", c.name, from.Index, b.tags[memoKey], it.describe(b, qs[0]))
+								}
+								ok = false
+								break
 							}
-							ok = false
+						}
+						if !ok {
 							break
 						}
 					}
-					if !ok {
-						break
+					if ok {
+						keep = append(keep, c)
+					} else {
+						removed = true
+						dropped[c.name] = true
+						if os.Getenv("RTPCHECK_LOOPDBG") == "2" {
+							fmt.Printf("  drop(preserve) %s b%d round %d inner %d: %s\n", fn.Name(), head.Index, round, inner, c.name)
+						}
 					}
 				}
-				if ok {
-					keep = append(keep, c)
-				} else {
-					removed = true
-					dropped[c.name] = true
-					if os.Getenv("RTPCHECK_LOOPDBG") == "2" {
-						fmt.Printf("  drop(preserve) %s b%d round %d inner %d: %s\n", fn.Name(), head.Index, round, inner, c.name)
-					}
+				active = keep
+				if !removed {
+					break
 				}
 			}
-			active = keep
-			if !removed {
-				break
-			}
+			settled = active
 		}
 		it.record = saveRec
 		if changedMem {
@@ -574,36 +592,37 @@ func (it *interp) nilAtomKey(f frameID, head *ssa.BasicBlock, key string) *lin.L
 // genCandidates instantiates the invariant templates.
 func genCandidates(vars []lvar, terms []term) []cand {
 	var out []cand
-	add := func(name string, b func(d *disjunct, cur func(int) *lin.Lin, init func(int) *lin.Lin) (lin.Ineq, bool)) {
-		out = append(out, cand{name, b})
+	stage := 1
+	add := func(name string, b func(d *disjunct, cur func(int) *lin.Lin, init func(int) *lin.Lin) ([]lin.Ineq, bool)) {
+		out = append(out, cand{stage, name, b})
 	}
 	for i := range vars {
 		i := i
 		n := vars[i].name
 		// A: x >= init, x <= init
-		add(n+">=init", func(d *disjunct, cur, init func(int) *lin.Lin) (lin.Ineq, bool) {
+		add(n+">=init", func(d *disjunct, cur, init func(int) *lin.Lin) ([]lin.Ineq, bool) {
 			c, in := cur(i), init(i)
 			if c == nil || in == nil {
-				return lin.Ineq{}, false
+				return nil, false
 			}
-			return lin.GE(c, in), true
+			return []lin.Ineq{lin.GE(c, in)}, true
 		})
-		add(n+"<=init", func(d *disjunct, cur, init func(int) *lin.Lin) (lin.Ineq, bool) {
+		add(n+"<=init", func(d *disjunct, cur, init func(int) *lin.Lin) ([]lin.Ineq, bool) {
 			c, in := cur(i), init(i)
 			if c == nil || in == nil {
-				return lin.Ineq{}, false
+				return nil, false
 			}
-			return lin.LE(c, in), true
+			return []lin.Ineq{lin.LE(c, in)}, true
 		})
 		// B: x >= c
 		for _, k := range []int64{-1, 0, 1} {
 			k := k
-			add(fmt.Sprintf("%s>=%d", n, k), func(d *disjunct, cur, init func(int) *lin.Lin) (lin.Ineq, bool) {
+			add(fmt.Sprintf("%s>=%d", n, k), func(d *disjunct, cur, init func(int) *lin.Lin) ([]lin.Ineq, bool) {
 				c := cur(i)
 				if c == nil {
-					return lin.Ineq{}, false
+					return nil, false
 				}
-				return lin.GE(c, lin.Const(k)), true
+				return []lin.Ineq{lin.GE(c, lin.Const(k))}, true
 			})
 		}
 		// C: x <= t + c, x >= t + c
@@ -611,24 +630,25 @@ func genCandidates(vars []lvar, terms []term) []cand {
 			j := j
 			for _, k := range []int64{-1, 0, 1} {
 				k := k
-				add(fmt.Sprintf("%s<=%s%+d", n, terms[j].name, k), func(d *disjunct, cur, init func(int) *lin.Lin) (lin.Ineq, bool) {
+				add(fmt.Sprintf("%s<=%s%+d", n, terms[j].name, k), func(d *disjunct, cur, init func(int) *lin.Lin) ([]lin.Ineq, bool) {
 					c, t := cur(i), terms[j].get(d)
 					if c == nil || t == nil {
-						return lin.Ineq{}, false
+						return nil, false
 					}
-					return lin.LE(c, t.AddConst(k)), true
+					return []lin.Ineq{lin.LE(c, t.AddConst(k))}, true
 				})
 			}
-			add(fmt.Sprintf("%s>=%s", n, terms[j].name), func(d *disjunct, cur, init func(int) *lin.Lin) (lin.Ineq, bool) {
+			add(fmt.Sprintf("%s>=%s", n, terms[j].name), func(d *disjunct, cur, init func(int) *lin.Lin) ([]lin.Ineq, bool) {
 				c, t := cur(i), terms[j].get(d)
 				if c == nil || t == nil {
-					return lin.Ineq{}, false
+					return nil, false
 				}
-				return lin.GE(c, t), true
+				return []lin.Ineq{lin.GE(c, t)}, true
 			})
 		}
 	}
 	// D/E: pairs
+	stage = 2
 	for i := range vars {
 		for j := i + 1; j < len(vars); j++ {
 			i, j := i, j
@@ -636,57 +656,43 @@ func genCandidates(vars []lvar, terms []term) []cand {
 			if !(vars[i].intVar || vars[i].lenVar) || !(vars[j].intVar || vars[j].lenVar) || (vars[i].lenVar && vars[j].lenVar) {
 				continue // pair templates relate integer counters, or one counter and one slice length
 			}
+			// relations between two counters are kept only as equalities (x ± y and x - k*y are
+			// constant over the loop): one-sided pair relations are almost always noise
 			for _, sgn := range []int64{1, -1} {
 				sgn := sgn
-				for _, dir := range []int{0, 1} {
-					dir := dir
-					add(fmt.Sprintf("%s%+d*%s cmp%d init", ni, sgn, nj, dir), func(d *disjunct, cur, init func(int) *lin.Lin) (lin.Ineq, bool) {
-						ci, cj, ii, ij := cur(i), cur(j), init(i), init(j)
-						if ci == nil || cj == nil || ii == nil || ij == nil {
-							return lin.Ineq{}, false
-						}
-						l := ci.Add(cj.Scale(sgn))
-						r := ii.Add(ij.Scale(sgn))
-						if dir == 0 {
-							return lin.LE(l, r), true
-						}
-						return lin.GE(l, r), true
-					})
-				}
+				add(fmt.Sprintf("%s%+d*%s == init", ni, sgn, nj), func(d *disjunct, cur, init func(int) *lin.Lin) ([]lin.Ineq, bool) {
+					ci, cj, ii, ij := cur(i), cur(j), init(i), init(j)
+					if ci == nil || cj == nil || ii == nil || ij == nil {
+						return nil, false
+					}
+					return lin.EQ(ci.Add(cj.Scale(sgn)), ii.Add(ij.Scale(sgn))), true
+				})
 			}
 			for _, k := range []int64{4, 5} {
 				k := k
 				for _, swap := range []bool{false, true} {
 					swap := swap
-					for _, dir := range []int{0, 1} {
-						dir := dir
-						add(fmt.Sprintf("%s-%d*%s sw%v cmp%d", ni, k, nj, swap, dir), func(d *disjunct, cur, init func(int) *lin.Lin) (lin.Ineq, bool) {
-							a, b := i, j
-							if swap {
-								a, b = j, i
-							}
-							ca, cb, ia, ib := cur(a), cur(b), init(a), init(b)
-							if ca == nil || cb == nil || ia == nil || ib == nil {
-								return lin.Ineq{}, false
-							}
-							l := ca.Sub(cb.Scale(k))
-							r := ia.Sub(ib.Scale(k))
-							if dir == 0 {
-								return lin.LE(l, r), true
-							}
-							return lin.GE(l, r), true
-						})
-					}
+					add(fmt.Sprintf("%s-%d*%s sw%v == init", ni, k, nj, swap), func(d *disjunct, cur, init func(int) *lin.Lin) ([]lin.Ineq, bool) {
+						a, b := i, j
+						if swap {
+							a, b = j, i
+						}
+						ca, cb, ia, ib := cur(a), cur(b), init(a), init(b)
+						if ca == nil || cb == nil || ia == nil || ib == nil {
+							return nil, false
+						}
+						return lin.EQ(ca.Sub(cb.Scale(k)), ia.Sub(ib.Scale(k))), true
+					})
 				}
 			}
 			for t := range terms {
 				t := t
-				add(fmt.Sprintf("%s+%s<=%s", ni, nj, terms[t].name), func(d *disjunct, cur, init func(int) *lin.Lin) (lin.Ineq, bool) {
+				add(fmt.Sprintf("%s+%s<=%s", ni, nj, terms[t].name), func(d *disjunct, cur, init func(int) *lin.Lin) ([]lin.Ineq, bool) {
 					ci, cj, tt := cur(i), cur(j), terms[t].get(d)
 					if ci == nil || cj == nil || tt == nil {
-						return lin.Ineq{}, false
+						return nil, false
 					}
-					return lin.LE(ci.Add(cj), tt), true
+					return []lin.Ineq{lin.LE(ci.Add(cj), tt)}, true
 				})
 			}
 		}
